@@ -1,7 +1,7 @@
 (* C02 - failure and skip containment: final step states follow the DAG semantics.
    This file holds nothing but the property theorems (closed by `exact`) and Print Assumptions.
    Model: Sched/Model.v.  Proofs: Sched/ProofsFinal.v (invariants I6/I7).  Tie to the code: tools/props/C02.py.
-   Premises: donech c = true (Schedule is given a done channel, as the agent always does), norepeat c.
+   Premise: norepeat c (no repeatPolicy step).  Since fix f9e55a3 no premise about the done channel is needed.
    Reading kept explicit: a *canceled* dependency blocks its dependents irrespective of continueOn.failure - that is
    what isReady does (scheduler.go:379-381) and what the property's local-consistency quantifier allows. *)
 From Coq Require Import List.
@@ -17,7 +17,7 @@ From BD.Sched Require Import Model Proofs ProofsFinal Examples.
    - not blocked, precondition met, set-up fails:   never executed, ends failed;
    - otherwise (runnable):  executed at least once; all attempts but the last failed; finished iff the last attempt
      succeeded; failed only with the retries exhausted (retryCount = limit). *)
-Theorem C02_final_states : forall c : cfg, donech c = true -> norepeat c ->
+Theorem C02_final_states : forall c : cfg, norepeat c ->
   forall s, Reach c s -> quiet s -> pc s = LDone -> forall i, i < nsteps c ->
   (blocked c s i = true ->
      att (nd s i) = 0 /\ ((st (nd s i) = NCancel /\ blocker c s i NCancel) \/
@@ -32,7 +32,7 @@ Proof. exact final_states. Qed.
 Print Assumptions C02_final_states.
 
 (* "Steps not downstream of any such step always run to completion." *)
-Theorem C02_unaffected_run : forall c : cfg, donech c = true -> norepeat c ->
+Theorem C02_unaffected_run : forall c : cfg, norepeat c ->
   forall s, Reach c s -> quiet s -> pc s = LDone -> forall i, i < nsteps c ->
   dry c = false -> sfail (steps c i) = false -> pre (steps c i) = true ->
   (forall d, In d (deps (steps c i)) -> dep_mark c s d = None) ->
